@@ -55,9 +55,9 @@ Expected(ins) == IF ins.label = None /\ ins.out = None /\ ins.cmd = None THEN [t
 \* "qend": unterminated quoted last argument; "esc": an undocumented escape \x inside an argument;
 \* "bsend": backslash at the end of the line; "nameq"/"namebs": a name that begins with a quote /
 \* contains a backslash; "bang": '!' alone; "bangx": unknown pre-processor command
-MalformedKinds == {"qend", "esc", "bsend", "nameq", "namebs", "bang", "bangx"}
+MalformedKinds == {"qend", "esc", "escvar", "bsend", "nameq", "namebs", "bang", "bangx"}
 ErrOf(kind) == CASE kind = "qend" -> "MissingEndQuotes"
-                 [] kind \in {"esc", "bsend"} -> "ControlWithoutValidValue"
+                 [] kind \in {"esc", "escvar", "bsend"} -> "ControlWithoutValidValue"
                  [] kind = "nameq" -> "InvalidQuotesLocation"
                  [] kind = "namebs" -> "InvalidControlLocation"
                  [] kind = "bang" -> "PreProcessNoCommandFound"
@@ -67,10 +67,15 @@ Plain(ins) == [lead |-> <<>>, labsep |-> 1, eqpre |-> 1, eqpost |-> 1, sep |-> [
                q |-> [i \in 1..Len(ins.args) |-> FALSE], rawtab |-> [i \in 1..Len(ins.args) |-> FALSE],
                trail |-> 0, comment |-> <<>>]
 BadEscLetters == {97, 120, 48, SP, 123, 35}       \* a x 0 space { # : none of \ " n r t $
+\* "escvar": after \$ only '{' is documented (the escaped \${ form); every other follower - including the
+\* characters that are escapes on their own (\ " n r t) and a second '$' - is an undocumented escape
+BadVarLetters == {BS, QUOTE, 110, 114, 116, DOLLAR, 97, SP, HASH}
+XSet(kind) == IF kind = "escvar" THEN BadVarLetters ELSE BadEscLetters
 Malformed(kind, ins, a, x) ==        \* ins has a command; a = an extra argument body; x = a filler character
   LET pre == Render(ins, Plain(ins)) IN
   CASE kind = "qend"   -> pre \o <<SP, QUOTE>> \o Esc(a, FALSE)
     [] kind = "esc"    -> pre \o <<SP, QUOTE>> \o Esc(a, FALSE) \o <<BS, x>> \o <<QUOTE>>
+    [] kind = "escvar" -> pre \o <<SP, QUOTE>> \o Esc(a, FALSE) \o <<BS, DOLLAR, x>> \o (IF x = DOLLAR THEN <<LBRACE, 97, 125>> ELSE <<>>) \o <<QUOTE>>
     [] kind = "bsend"  -> pre \o <<SP>> \o <<120, BS>>
     [] kind = "nameq"  -> (IF ins.label = None THEN <<>> ELSE <<COLON>> \o ins.label \o <<SP>>) \o <<QUOTE>> \o ins.cmd \o <<QUOTE>>
     [] kind = "namebs" -> (IF ins.label = None THEN <<>> ELSE <<COLON>> \o ins.label \o <<SP>>) \o ins.cmd \o <<BS, BS>> \o <<x>>
